@@ -521,6 +521,17 @@ def rule_R12(body):
 RULES = {"R10": rule_R10, "R3": rule_R3, "R12": rule_R12, "R9": rule_R9, "R11": rule_R11, "R1": rule_R1, "R2": rule_R2, "R4": rule_R4, "R7": rule_R7, "R8": rule_R8}
 
 
+def rule_R13(body):
+    """`for V in X.iter().skip(N) {` -> index loop over X from N (V bound by value: the element type is Copy)"""
+    pat = re.compile(r"for\s+(\w+)\s+in\s+([\w\.]+)\.iter\(\)\.skip\((\w+)\)\s*\{")
+    n = len(pat.findall(body))
+    body = pat.sub(lambda m: "let mut verif_i = %s;\n        while verif_i < %s.len() {\n            let %s = %s[verif_i];\n            verif_i += 1;" % (m.group(3), m.group(2), m.group(1), m.group(2)), body)
+    return body, n
+
+
+RULES["R13"] = rule_R13
+
+
 def match_brace(text, ob):
     """index of the `}` matching text[ob] == '{' (lexer-aware)"""
     toks = tokenize(text)
@@ -576,6 +587,26 @@ def weave_fn(src, path, relfile, spec):
             w.drift_soft.append("sig_subst `%s` expected %d, found %d" % (x, cnt, sig.count(x)))
         sig = sig.replace(x, y)
         w.notes.append("sig_subst `%s` => `%s`" % (x, y))
+
+    # --- monomorphisation: a generic function is verified per instantiation (type parameter -> concrete type, name suffixed)
+    if spec.get("mono"):
+        tp, ty = spec["mono"]
+        def inst(t):
+            # `T::f` becomes a fully qualified call of the stand-in trait that declares f (an inherent method of the same name must not win)
+            t = re.sub(r"\b%s::(\w+)" % re.escape(tp), lambda m: "<%s as %s>::%s" % (ty, "BitReadable" if m.group(1) in ("bit_width", "is_signed", "as_int") else "VZero", m.group(1)), t)
+            return re.sub(r"\b%s\b" % re.escape(tp), ty, t).replace("__T__", ty)
+        sig = re.sub(r"<\s*%s\s*:\s*\w+\s*>" % re.escape(tp), "", sig, count=1)
+        sig = inst(sig)
+        sig = re.sub(r"^fn\s+(\w+)", lambda m: "fn %s_%s" % (m.group(1), ty), sig, count=1)
+        body = inst(body)
+        spec = dict(spec)
+        if spec.get("contract"):
+            spec["contract"] = (inst(spec["contract"][0]), spec["contract"][1])
+        spec["loops"] = {k: (inst(v[0]), v[1]) for k, v in (spec.get("loops") or {}).items()}
+        for kind in ("before", "after"):
+            spec[kind] = [(inst(sn), inst(tx), od, ol) for (sn, tx, od, ol) in spec.get(kind, [])]
+        spec["subst"] = [(inst(x), inst(y), c) for (x, y, c) in spec.get("subst", [])]
+        w.notes.append("monomorphised: %s := %s (generic function verified per instantiation)" % (tp, ty))
 
     # --- body: rewrite rules and substitutions first (they are pure text -> text), then anchors
     for r in spec.get("rules", []):
